@@ -95,7 +95,7 @@ func (c *Ctx) Count(name string, n int) { c.counters[name] += int64(n) }
 
 // Max records the maximum of a diagnostic quantity.
 func (c *Ctx) Max(name string, v float64) {
-	if math.IsNaN(v) {
+	if math.IsNaN(v) || math.IsInf(v, 0) {
 		return
 	}
 	if old, ok := c.maxes[name]; !ok || v > old {
